@@ -357,9 +357,15 @@ def solve(ctx: Ctx, ob: Ob) -> Result:
             _, _, _, errs, s2, goals = parse_cbmc_json(out)
             res.solver_s += s2
             goals = goals or []
-            res.covers_total = len(goals)
-            res.covers_sat = sum(1 for g in goals if g.get('status') == 'satisfied')
-            res.covers_failed = [g.get('description', '') for g in goals if g.get('status') != 'satisfied']
+            # inlining duplicates cover statements (one copy may be unreachable): a condition counts as
+            # satisfied when any goal with the same text is satisfied
+            by = {}
+            for g in goals:
+                d = g.get('description', '')
+                by[d] = by.get(d, False) or g.get('status') == 'satisfied'
+            res.covers_total = len(by)
+            res.covers_sat = sum(1 for v in by.values() if v)
+            res.covers_failed = [d for d, v in by.items() if not v]
             if res.covers_failed:
                 res.status, res.detail = 'error', 'vacuity guard: cover goal(s) not satisfiable: ' + '; '.join(res.covers_failed)
             elif res.covers_total < ob.min_covers:
